@@ -1353,7 +1353,14 @@ class SyncInterpreter(BaseInterpreter[TContext, TEvent]):
                     key,
                     state.id,
                 )
-                self._after_events[key].set()  # signal cancellation
+                # 🧵 The timer thread removes its own entry when it finishes,
+                #    so the key may vanish between the listing above and this
+                #    line. A plain subscript raised KeyError out of `send()`
+                #    in the middle of the transition that was exiting the
+                #    state, which was then rolled back.
+                cancel_flag = self._after_events.get(key)
+                if cancel_flag is not None:
+                    cancel_flag.set()  # signal cancellation
             finally:
                 # Remove from tracking dicts whether the thread is alive or not;
                 # the thread cleans itself up on exit as well.
